@@ -40,12 +40,12 @@ RULE = ("random scripts (3-12 mutating calls quick / 3-16 thorough, each followe
         "empty, the two default graphs; non-trivial = at some point two graphs held a common triple or a restricted "
         "query hit an empty/unknown graph while another graph matched, and at least one removal happened; "
         "distinct = distinct scripts")
-ASSUMPTIONS = ["the Memory model the layer is composed with is C01's (lean/RV/C01/Model.lean, imported, proved there to "
+ASSUMPTIONS = ["the Memory model the layer is composed with is C01's (lean/RV/C01/NModel.lean + Model.lean, the nested-dictionary model NMem, imported, proved there to "
                "represent a set of (triple, graph) pairs plus a set of registered graphs; composed here by conc_refines_abstract)",
                "graph(None): the name BNode().skolemize() returns is fresh (uuid-based); the harness checks it on every call",
                "parse, serialisation and pickling are outside the model"]
 TRUSTED = ["harness/c02.py generators, interpreter and canonicalisation", "lean/RV/C02/Drive.lean line protocol",
-           "lean/RV/C01/Model.lean as a model of memory.py (C01's own correspondence check; here every line of every script "
+           "lean/RV/C01/NModel.lean (+ the context bookkeeping of Model.lean) as a model of memory.py (C01's own correspondence check; here every line of every script "
            "is answered by the Dataset layer composed with that model and compared with rdflib)"]
 
 SUBJ = {1: URIRef("http://e/s1"), 2: BNode("s2"), 3: URIRef("http://e/s3")}
@@ -145,7 +145,7 @@ def _garg(w):
         return ("-",)
     if w == "N":
         return ("N",)
-    if w[0] in "iv":
+    if w[0] in "ivo":
         return (w[0], int(w[1:]))
     if w[0] == "f":
         k, ts = w[1:].split(":")
@@ -266,6 +266,18 @@ class _Impl:
                 self.rot += 1
                 return v
             return self.view(g[1])
+        if g[0] == "o":
+            # a ConjunctiveGraph OBJECT whose identifier is the graph's name: `_graph` returns it as is (no get_graph
+            # scan, no copy) - the very ConjunctiveGraph of the script, one on this store, or one on ANOTHER store that
+            # holds a triple of its own (which must not leak into this store)
+            self.rot += 1
+            if g[1] == C_DEF and self.rot % 3 == 0:
+                return self.c
+            if self.rot % 2:
+                return ConjunctiveGraph(store=self.store, identifier=self.names[g[1]])
+            o = ConjunctiveGraph(identifier=self.names[g[1]])
+            o.add((SUBJ[3], PRED[11], OBJ[24]))
+            return o
         f = Graph(identifier=self.names[g[1]])  # own store
         for t in g[2]:
             f.add(self.triple(t))
@@ -276,7 +288,7 @@ class _Impl:
             return D_DEF
         if isinstance(c, Graph):
             c = c.identifier
-        return self.rev[c]
+        return self.rev.get(c, 0)      # 0 = a graph under a name nobody ever used
 
     def snapshot(self):
         return {k: {self.ids(t) for t in Graph(store=self.store, identifier=self.names[k])} for k in self.keys}
@@ -320,7 +332,7 @@ def run_impl(case):
         w = lines[k].split()
         op = w[0]
         bump("op_" + op)
-        mutating = op in ("add", "addn", "iadd", "remove", "graph", "graphnew", "rmgraph", "rmctx", "vadd", "vremove", "setdu")
+        mutating = op in ("add", "addn", "iadd", "remove", "graph", "graphnew", "rmgraph", "rmgraphnone", "rmctx", "vadd", "vremove", "setdu")
         before = im.snapshot() if mutating else None
         touched = None     # set of graph keys the op may change (None = all)
         reg_before = {im.gid(g) for g in im.store.contexts()}
@@ -382,7 +394,8 @@ def run_impl(case):
             elif op == "graph":
                 top, g = w[1], _garg(w[2])
                 v = (im.d.graph if k % 2 else im.d.add_graph)(im.gobj(g, top))
-                im.pool.setdefault(g[1], []).append(v)
+                if type(v) is Graph and v.store is im.store:      # (given a ConjunctiveGraph object, graph() returns that object)
+                    im.pool.setdefault(g[1], []).append(v)
                 foreign_effect(g)
                 orc.create(g[1])
                 touched = affected(g)
@@ -409,6 +422,13 @@ def run_impl(case):
                 touched = set()
                 reg_touched.add(gk)
                 bump("graphnew")
+            elif op == "rmgraphnone":
+                # ds.remove_graph(None): get_context(None) is a graph under a brand-new blank-node name; removing it is a
+                # no-op for every graph and for the registry (as coded; the default graph is NOT what None denotes here)
+                im.d.remove_graph(None)
+                touched = set()
+                bump("rmgraphnone")
+                out = "ok"
             elif op == "rmgraph":
                 gk = int(w[2])
                 # by identifier, by a same-store view, or by a Graph object of ANOTHER store bearing the name (no merge here:
@@ -537,7 +557,7 @@ def run_impl(case):
                     gs = list(im.c.contexts())
                 res = sorted(im.gid(g) for g in gs)
                 for g in gs:
-                    if g.store is im.store:
+                    if type(g) is Graph and g.store is im.store:
                         im.pool.setdefault(im.gid(g), []).append(g)   # a view obtained now, read later
                 if len(res) != len(set(res)):
                     bad("dup", k, "a graph is listed twice")
@@ -823,7 +843,13 @@ def gen_case(rng, tier, i):
             ts = [_rtriple(rng, chainy) for _ in range(rng.randint(0, 2))]
             spec.merge(k, ts)
             return f"f{k}:" + ";".join(".".join(map(str, t)) for t in ts)
+        if not foreign and 0.58 <= r < 0.66:
+            return f"o{k}"      # a ConjunctiveGraph object named k (never together with foreign Graph objects: which object
+            #                     get_graph() then finds for the name - and so where a foreign Graph is merged - is history-dependent)
         return f"i{k}" if r < 0.65 else f"v{k}"
+
+    def nov(w):      # path patterns: a graph object argument is always a plain same-store view
+        return "v" + w[1:] if w[0] == "o" else w
 
     def known_triple():
         u = sorted(spec.union())
@@ -880,13 +906,13 @@ def gen_case(rng, tier, i):
                 b = _w(rng.choice([1, 2, 3, 23, 25, t[2]])) if rng.random() < 0.25 else "*"
                 r3 = rng.random()
                 if r3 < 0.4:
-                    out.append(f"path {top} {kind} {a} {b} {garg(k)} -")
+                    out.append(f"path {top} {kind} {a} {b} {nov(garg(k))} -")
                 elif r3 < 0.6:
-                    out.append(f"path {top} {kind} {a} {b} - {garg(k)}")
+                    out.append(f"path {top} {kind} {a} {b} - {nov(garg(k))}")
                 elif r3 < 0.7:
-                    out.append(f"path {top} {kind} {a} {b} {rng.choice(['-', 'N', garg(gkey())])} {rng.choice(['-', 'N', garg(k)])}")
+                    out.append(f"path {top} {kind} {a} {b} {nov(rng.choice(['-', 'N', garg(gkey())]))} {nov(rng.choice(['-', 'N', garg(k)]))}")
                 elif r3 < 0.9:
-                    out.append(f"pathin {top} {kind} {a} {b} {garg(k) if rng.random() < 0.85 else '-'}")
+                    out.append(f"pathin {top} {kind} {a} {b} {nov(garg(k)) if rng.random() < 0.85 else '-'}")
                 else:
                     out.append(f"vpath {k} {kind} {a} {b}")
                 continue
@@ -978,6 +1004,11 @@ def gen_case(rng, tier, i):
         elif r < 0.83:
             lines.append(f"setdu {top} {rng.randint(0, 1)}")     # default_union switched at run time
         elif r < 0.93 and "d" in tops:
+            if rng.random() < 0.08:
+                lines.append(f"rmgraphnone d {rng.randint(0, 9)}")
+                lines += block()
+                lines += probes()
+                continue
             k = rng.choice(NAMED + NAMED + [D_DEF, C_DEF, UNKNOWN] + fresh)
             lines.append(f"rmgraph d {k}")
             spec.remove_graph(k)
